@@ -13,7 +13,25 @@ use crate::{
     puppet::{PuppetTransport, World},
 };
 
+type Task = Pin<Box<dyn std::future::Future<Output = ()> + Send>>;
+
+/// Executor that only stores the spawned tasks (pending-connection tasks, connection tasks, close tasks);
+/// the driver decides when each of them runs. Gives control over back-pressure and over the windows
+/// between "a task has produced its result" and "the pool has processed it".
+#[derive(Clone, Default)]
+pub struct ManualExec {
+    pub tasks: std::sync::Arc<std::sync::Mutex<Vec<Option<Task>>>>,
+}
+
+impl libp2p_swarm::Executor for ManualExec {
+    fn exec(&self, f: Task) {
+        self.tasks.lock().unwrap().push(Some(f));
+    }
+}
+
 pub struct RigCfg {
+    /// connection tasks run only when the driver says so
+    pub manual_exec: bool,
     pub npeers: usize,
     pub dial_concurrency: u8,
     pub idle_timeout_ms: u64,
@@ -24,7 +42,7 @@ pub struct RigCfg {
 
 impl Default for RigCfg {
     fn default() -> Self {
-        RigCfg { npeers: 4, dial_concurrency: 8, idle_timeout_ms: 0, notify_buffer: 8, per_conn_event_buffer: 7, smart_dial: false }
+        RigCfg { manual_exec: false, npeers: 4, dial_concurrency: 8, idle_timeout_ms: 0, notify_buffer: 8, per_conn_event_buffer: 7, smart_dial: false }
     }
 }
 
@@ -34,6 +52,7 @@ pub struct Rig<B: NetworkBehaviour> {
     pub ids: Ids,
     pub log: Log,
     pub det: Det,
+    pub exec: Option<ManualExec>,
 }
 
 pub fn make_ids(npeers: usize) -> Ids {
@@ -59,7 +78,12 @@ where
         log: Log,
         behaviour: B,
     ) -> Self {
-        let mut c = Config::without_executor()
+        let exec = if cfg.manual_exec { Some(ManualExec::default()) } else { None };
+        let base = match &exec {
+            Some(e) => Config::with_executor(e.clone()),
+            None => Config::without_executor(),
+        };
+        let mut c = base
             .with_dial_concurrency_factor(NonZeroU8::new(cfg.dial_concurrency.max(1)).unwrap())
             .with_idle_connection_timeout(Duration::from_millis(cfg.idle_timeout_ms))
             .with_notify_handler_buffer_size(std::num::NonZeroUsize::new(cfg.notify_buffer.max(1)).unwrap())
@@ -68,7 +92,7 @@ where
             c = c.with_smart_dial();
         }
         let swarm = Swarm::new(t, behaviour, ids.peer_id(0), c);
-        Rig { swarm, world, ids, log, det: Det::new() }
+        Rig { swarm, world, ids, log, det: Det::new(), exec }
     }
 
     /// Poll until one SwarmEvent is returned (logged) or the swarm is stalled. Returns whether an
@@ -85,13 +109,79 @@ where
                 }
                 Poll::Ready(None) => return false,
                 Poll::Pending => {
-                    if self.det.wakes() == before {
+                    if self.det.wakes() == before && !self.run_tasks_round() {
                         return false;
                     }
                 }
             }
         }
         panic!("rig: swarm did not quiesce within 1000 polls");
+    }
+
+    /// number of live (spawned, unfinished) tasks under the manual executor
+    pub fn live_tasks(&self) -> Vec<usize> {
+        match &self.exec {
+            Some(e) => e.tasks.lock().unwrap().iter().enumerate().filter(|(_, t)| t.is_some()).map(|(i, _)| i).collect(),
+            None => vec![],
+        }
+    }
+
+    /// poll task k once; returns (existed, finished)
+    pub fn run_task(&mut self, k: usize) -> (bool, bool) {
+        let Some(e) = &self.exec else { return (false, false) };
+        let t = {
+            let mut g = e.tasks.lock().unwrap();
+            match g.get_mut(k) {
+                Some(slot) => slot.take(),
+                None => None,
+            }
+        };
+        let Some(mut t) = t else { return (false, false) };
+        let mut cx = self.det.cx();
+        match t.as_mut().poll(&mut cx) {
+            Poll::Ready(()) => (true, true),
+            Poll::Pending => {
+                e.tasks.lock().unwrap()[k] = Some(t);
+                (true, false)
+            }
+        }
+    }
+
+    /// poll every live task once; returns whether anything happened (a task finished or a waker fired)
+    pub fn run_tasks_round(&mut self) -> bool {
+        if self.exec.is_none() {
+            return false;
+        }
+        let before = self.det.wakes();
+        let mut fin = false;
+        for k in self.live_tasks() {
+            let (_, f) = self.run_task(k);
+            fin |= f;
+        }
+        fin || self.det.wakes() != before
+    }
+
+    /// poll only the Swarm (tasks stay frozen) until it stalls; returns the number of SwarmEvents
+    pub fn poll_swarm_only(&mut self) -> usize {
+        let mut n = 0;
+        for _ in 0..1000 {
+            let before = self.det.wakes();
+            let mut cx = self.det.cx();
+            match Pin::new(&mut self.swarm).poll_next(&mut cx) {
+                Poll::Ready(Some(ev)) => {
+                    let v = self.swarm_event(&ev);
+                    self.log.push(v);
+                    n += 1;
+                }
+                Poll::Ready(None) => break,
+                Poll::Pending => {
+                    if self.det.wakes() == before {
+                        break;
+                    }
+                }
+            }
+        }
+        n
     }
 
     /// Exactly one call of `Swarm::poll_next` (no re-poll on wake-up): exposes intermediate states such as
